@@ -84,11 +84,15 @@ def ipset_replay(ctx, cases, dims, placements, tag):
 
 def ipset(ctx, thorough):
     # the model alone: every list of <= 3 entries x every source
+    #   quick:    W=4 (2+2-bit words, 2-bit IPv4), <= 3 entries up to order, host bits all clear / all set;
+    #             every ORDERED list of <= 2 entries with every Query transition
+    #   thorough: + every ordered list of <= 3 entries with any host bits (W=4),
+    #             + W=5 (2+3-bit words) <= 3 entries up to order
     ctx.tlc("IpSet", "IpSet.tla", "MC_W4_L3_quick.cfg", workers=8, timeout=900, heap="8g")
+    ctx.tlc("IpSet", "IpSet.tla", "MC_W4_L2_query.cfg", workers=4, timeout=900, heap="8g")
     if thorough:
-        ctx.tlc("IpSet", "IpSet.tla", "MC_W4_L3_canon.cfg", workers=8, timeout=1800, heap="8g")
-        ctx.tlc("IpSet", "IpSet.tla", "MC_W4_L3_ordered.cfg", workers=8, timeout=1800, heap="12g")
-        ctx.tlc("IpSet", "IpSet.tla", "MC_W5_L3_canon.cfg", workers=8, timeout=2400, heap="16g")
+        ctx.tlc("IpSet", "IpSet.tla", "MC_W4_L3_ordered.cfg", workers=8, timeout=2400, heap="12g")
+        ctx.tlc("IpSet", "IpSet.tla", "MC_W5_L3_canon.cfg", workers=8, timeout=3000, heap="16g")
     # spec -> code
     ipset_cases_emitted(ctx, "Cases_W4_L2.cfg", W4, 4 if thorough else 2, "W4L2")
     ipset_cases_simulated(ctx, "Sim_W4_L3.cfg", W4, 4000 if thorough else 700, 9, 6 if thorough else 3, "W4L3sim")
